@@ -504,6 +504,7 @@ type vSerSys struct {
 }
 
 func (s *vSerSys) Reset() {
+	vFixLevels()
 	if s.untrained {
 		s.src = s.k.fresh()
 	} else {
